@@ -161,6 +161,9 @@ def wf_cases():
         'assoc-enum': ("pub enum Ty<S> where S: Assoc {{ {VD}V0({F0}S::Out, {F1}u8), V1 {{ {F1}f0: u8 }} }}", 'Ty<u8>'),
         'unsized': ("pub struct Ty<'a, L> where L: ?Sized {{ {F0}pub f0: &'a L, {F1}pub f1: u8 }}", "Ty<'static, str>"),
         'unsized-enum': ("pub enum Ty<'a, L> where L: ?Sized {{ {VD}V0({F1}u8), V1 {{ {F0}f0: &'a L, {F1}f1: u8 }} }}", "Ty<'static, [u8]>"),
+        # parameters named like the generic parameters the impl bodies introduce themselves: the header must reproduce them, the bodies must stay clear of them
+        'const-named-__H': ("pub struct Ty<T, const __H: usize> {{ {F0}pub f0: [T; __H], {F1}pub f1: u8 }}", 'Ty<u8, 2>'),
+        'type-named-__H-enum': ("pub enum Ty<__H, const H: usize> {{ {VD}V0({F1}u8), V1 {{ {F0}f0: [__H; H], {F1}f1: u8 }} }}", 'Ty<u8, 2>'),
     }
     sets = {
         'Debug-method': ('Debug', {'F1': 'Debug(method(fmt_any))'}),
